@@ -21,8 +21,24 @@ Place(S, k, how) ==
   CASE how = "blockMid" -> Block(S, k, (S - k) \div 2)
     [] how = "blockEarly" -> Block(S, k, 1)
     [] how = "spread" -> Spread(S, k)
-Init ==
-  /\ \E c \in Classes, r \in {"baseline", "reporting"}, el \in BOOLEAN, ng \in BOOLEAN, st \in Starts, S \in Spans :
+\* monthly-rule cases: k consecutive days of ONE calendar month without temperature (hourly baselines: or without usage), k on
+\* both sides of 90 % of that month: 30 days (3 of 30 is exactly 90 %: allowed), 31 days, February, and the partial first month
+MonthTargets(st) == IF st = <<2019, 1, 1>> THEN {<<2019, 4>>, <<2019, 5>>, <<2019, 2>>}
+                    ELSE IF st = <<2019, 3, 15>> THEN {<<2019, 4>>, <<2019, 5>>, <<2020, 2>>, <<2019, 3>>}
+                    ELSE {<<2020, 4>>, <<2020, 2>>}
+MonthBlock(st, mk, k) ==
+  LET first == IF mk = <<st[1], st[2]>> THEN st[3] + 5 ELSE 5
+      off   == Ordinal(<<mk[1], mk[2], first>>) - Ordinal(st) IN [i \in 1..k |-> off + i - 1]
+MonthCase ==
+  \E c \in Classes, r \in {"baseline", "reporting"}, st \in Starts, k \in 1..4, col \in {"t", "o"} : \E mk \in MonthTargets(st) :
+     /\ (col = "o" => c = "hourly" /\ r = "baseline")
+     /\ (c = "billing" => st = <<2019, 1, 1>>)
+     /\ 365 \in Spans
+     /\ in = [cls |-> c, role |-> r, electric |-> TRUE, negatives |-> FALSE, start |-> st, span |-> 365,
+              omiss |-> IF col = "o" THEN MonthBlock(st, mk, k) ELSE <<>>, tmiss |-> IF col = "t" THEN MonthBlock(st, mk, k) ELSE <<>>,
+              lead |-> 0, trail |-> 0, mcase |-> TRUE]
+SpanCase ==
+  \E c \in Classes, r \in {"baseline", "reporting"}, el \in BOOLEAN, ng \in BOOLEAN, st \in Starts, S \in Spans :
      \E k1 \in Counts(S), k2 \in Counts(S), h1 \in {"blockMid", "spread"}, h2 \in {"blockMid", "blockEarly", "spread"}, ld \in {0, 6}, tr \in {0, 5} :
        /\ (ld + tr > 0 => r = "baseline" /\ c = "daily" /\ h1 = "blockMid" /\ h2 = "blockMid" /\ el /\ ~ng)
        /\ (r = "reporting" => k1 = 0 /\ ~ng /\ el)
@@ -31,7 +47,9 @@ Init ==
        /\ (ng => ~el)
        /\ (k1 = 0 => h1 = "blockMid") /\ (k2 = 0 => h2 = "blockMid")
        /\ in = [cls |-> c, role |-> r, electric |-> el, negatives |-> ng, start |-> st, span |-> S,
-                omiss |-> Place(S, k1, h1), tmiss |-> Place(S, k2, h2), lead |-> ld, trail |-> tr]
+                omiss |-> Place(S, k1, h1), tmiss |-> Place(S, k2, h2), lead |-> ld, trail |-> tr, mcase |-> FALSE]
+Init ==
+  /\ (MonthCase \/ SpanCase)
   /\ out = [res |-> "pending"] /\ pc = "call"
 Call == /\ pc = "call"
         /\ LET v == SetToSortSeq(IF Edge(in) THEN Must(in) \cap ({LenName} \cup CoverageNames) ELSE Must(in), LAMBDA a, b : TRUE) IN
